@@ -51,22 +51,22 @@ CHECKS = {
 
 # additions after the fourth wave of seeded changes (DESIGN.md 10.2, 10.4)
 EXTRA = {
- "C03": " One history in two hundred contains a long run (4200 - 70 000 pairs) of insertions each undone by a removal.",
+ "C03": " One history in two hundred contains a long run (4200 - 70 000 pairs) of insertions each undone by a removal. One history in six starts from values passed to the constructor; Sort comparators are closures of one factory (one code pointer).",
  "C01": " Scale runs (33 000-70 000 keys through growth, removal of half, Clear and re-use, closed-form expectations) and a probe of the default constructors over float32, a named float64 with NaN, int8, uint16 and a named string. Histories include a Put of the very pair the map already holds and the same call repeated twice in a row. One history in two hundred contains a long run (4200 - 70 000 pairs) of operations that cancel out, taking whatever the container counts over its lifetime past 4096 and 65 536.",
  "C02": " Scale runs with 200 000-262 144 keys in ascending or descending order (Keys, Values, both iteration directions, Floor/Ceiling, Min/Max by arithmetic); default-constructor probe over other ordered types. B-tree orders 300 and 1024.",
- "C04": " Scale runs (33 000-70 000 members); default-constructor probe over other ordered types. The set's own Values() is handed back to Add, Remove (all, or all but one member) and Contains; the same call is repeated twice in a row. One history in two hundred contains a long run (4200 - 70 000 pairs) of operations that cancel out, taking whatever the container counts over its lifetime past 4096 and 65 536.",
+ "C04": " Scale runs (33 000-70 000 members); default-constructor probe over other ordered types. The set's own Values() is handed back to Add, Remove (all, or all but one member) and Contains; the same call is repeated twice in a row. One history in two hundred contains a long run (4200 - 70 000 pairs) of operations that cancel out, taking whatever the container counts over its lifetime past 4096 and 65 536. One history in six starts from values passed to the constructor.",
  "C05": " One ring run in ten uses capacities 1024-4096 filled to about the capacity in one step; float elements are compared by exact rendering (-0 is not +0). One history in two hundred contains a long run (4200 - 70 000 pairs) of operations that cancel out, taking whatever the container counts over its lifetime past 4096 and 65 536.",
  "C06": " Loads go through FromJSON, UnmarshalJSON and json.Unmarshal; default-constructor probe over other ordered types. The heap's own Values() is handed back to Push. One history in two hundred contains a long run (4200 - 70 000 pairs) of operations that cancel out, taking whatever the container counts over its lifetime past 4096 and 65 536.",
  "C07": " TreeBidiMap.GetKey is counted too, with value tables as large as the key table.",
- "C09": " Scale runs (33 000-70 000 keys in insertion order through removal, Clear and re-use). The containers' own iterators are walked in both directions against Keys()/Values(). One history in two hundred contains a long run (4200 - 70 000 pairs) of operations that cancel out, taking whatever the container counts over its lifetime past 4096 and 65 536.",
+ "C09": " Scale runs (33 000-70 000 keys in insertion order through removal, Clear and re-use). The containers' own iterators are walked in both directions against Keys()/Values(). One history in two hundred contains a long run (4200 - 70 000 pairs) of operations that cancel out, taking whatever the container counts over its lifetime past 4096 and 65 536. One set history in six starts from values passed to the constructor (up to 130).",
  "C10": " Scale runs (33 000-70 000 pairs, Get/GetKey by arithmetic, through removal, Clear and re-use). One history in two hundred contains a long run (4200 - 70 000 pairs) of operations that cancel out, taking whatever the container counts over its lifetime past 4096 and 65 536.",
- "C11": " Value shapes include containers as values of containers (recursive ToJSON); the key pools end in pairs that collide under common 32-bit hashes. The histories contain read-only and enumerable calls (what a read leaves behind must not outlive a restart); the reloaded container's iterators are walked both ways and Each is judged against them. Key-value kinds over uint64, uint, uint8, int8 and int64 keys at the ends of their ranges.",
+ "C11": " Value shapes include containers as values of containers (recursive ToJSON); the key pools end in pairs that collide under common 32-bit hashes. The histories contain read-only and enumerable calls (what a read leaves behind must not outlive a restart); the reloaded container's iterators are walked both ways and Each is judged against them. Key-value kinds over uint64, uint, uint8, int8 and int64 keys at the ends of their ranges. Reloaded values are compared with the Go values encoding/json reads from the document (reflect.DeepEqual, dynamic types included).",
  "C12": " Two further fault kinds: F15 permuted elements/members and F16 a second member whose name is another spelling of a present key; one large run in three produces documents beyond 64 KiB. F17 foreign writer: documents written under another order (several distinct keys of the document are one key for the loading container's comparator) and, in a probe of its own, freely spelled member names for a key type that implements encoding.TextUnmarshaler. The histories contain read-only and enumerable calls, one load in three is directly preceded by one; after every load the iterators are walked both ways and Each/Any/All/Find are judged against them. F18 null elements, also as the second half of reject-then-accept pairs (a document with one wrongly typed element after good ones directly followed by an accepted one with nulls or partial structs, half the time right after a Clear).",
  "C13": " Algebra calls with a TreeSet of another comparator function are interleaved (result unjudged, operands and later same-comparator algebra judged); scale runs with operands of 33 000-70 000 members. Every algebra call is made twice: the second result is left alone while the first result and both operands are mutated (also through Clear, a load that fails and a load that succeeds), must still hold what the call returned, and is then emptied.",
  "C14": " Float elements (both zeros, infinities, NaN keys for the tree kinds); a result must serialise like a fresh container holding the same elements.",
  "C15": " Scale runs: Clear of 33 000-70 000 elements compared with a fresh instance. One history in two hundred contains a long run (4200 - 70 000 pairs) of operations that cancel out, taking whatever the container counts over its lifetime past 4096 and 65 536.",
- "C16": " A callee must also leave the slice it was given, and the spare capacity behind it, unchanged. Two slices returned by Values()/Keys() never share memory: writing to (or sorting) a later one leaves an earlier one as it was. The container's own Values() is handed back to Add/Insert/Push. GetSortedValues is probed over uint8, string (words differing first at byte 8, 9 or 16), int and uint64; one scribble in three touches every other held slice only.",
- "C17": " The catalogue includes containers as values of containers (a call that blocks for ever is reported through the Go runtime's deadlock fatal error, confirmed from the regenerated plan) and algebra between TreeSets of different comparator functions.",
+ "C16": " A callee must also leave the slice it was given, and the spare capacity behind it, unchanged. Two slices returned by Values()/Keys() never share memory: writing to (or sorting) a later one leaves an earlier one as it was. The container's own Values() is handed back to Add/Insert/Push. GetSortedValues is probed over uint8, string (words differing first at byte 8, 9 or 16), int and uint64; one scribble in three touches every other held slice only. A mutation directly before the caller takes slices is not observed by the harness in between (the caller's Values() is the first read after it).",
+ "C17": " The catalogue includes containers as values of containers (a call that blocks for ever is reported through the Go runtime's deadlock fatal error, confirmed from the regenerated plan) and algebra between TreeSets of different comparator functions. An extreme-configurations step: B-trees of order 2^62 .. MaxInt, and bulk loads of about 9000 elements into a heap and a priority queue under a comparator that notes overlapping calls (a library that enters the caller's comparator from several goroutines does not return normally for comparators that are not re-entrant).",
  "C18": " Peak-and-shrink runs (Fill to 1100-3000, one bulk removal), deep-tree runs (8192+ ascending keys; both readers run the whole read catalogue in the same order before any sequential reference call) and Contains with 33-48 arguments.",
 }
 
